@@ -1,7 +1,7 @@
 \* one run is both the model check of the classification (invariants over every
 \* generated line: no VIEW) and the generator (one T line per transition)
 CONSTANTS
-  Stride = 1
+  Stride = 2
   Stride2 = 24
   Seed <- EnvSeed
 INIT Init
